@@ -336,4 +336,42 @@ theorem O05j_codeseparator_witness :
   · decide
   · decide +kernel
 
+
+/-! ## consumers of the digest: which digest a signature is matched against -/
+
+/-- **`Tx.finalize_p2tr_multisig` matches every signature against the digest of that signature's OWN hash type.**
+    For one public key of the tap script and any list of signature elements: the element the loop places is the
+    first one (in list order) that verifies for the key against `sig_hash(input_index, ht)` with `ht` read from
+    THAT element (64 bytes: SIGHASH_DEFAULT, 65 bytes: its last byte) — and by `bip341_digest_eq_spec` that is the
+    BIP341 digest for `ht`; every element before it is empty or fails against the digest of its own hash type; when
+    nothing is placed, every element is empty or fails against its own digest.  The object's fields are unchanged
+    by the search.  So co-signers may use different hash types in any order. -/
+theorem finalize_p2tr_multisig_uses_each_sig_hashtype (H : Hashes) (x : Bytes → Bool)
+    (verify : Bytes → Bytes → Bytes → Option Bool) (i : Nat) (point : Bytes) (o : TxObj) (sigs : List Bytes)
+    (pick : Option Bytes) (o' : TxObj)
+    (h : pickSig Cfg.repaired H x verify i point o sigs = some (pick, o')) :
+    o' = o ∧
+    match pick with
+    | some s => ∃ pre post ht body msg, sigs = pre ++ s :: post ∧ schnorrSigKind s = .sig ht body ∧
+        digestFor H x o i ht = some (.bytes msg) ∧ verify point msg body = some true ∧
+        ∀ s' ∈ pre, NoMatch H x verify o i point s'
+    | none => ∀ s' ∈ sigs, NoMatch H x verify o i point s' :=
+  pickSig_spec H x verify i point o sigs pick o' h
+
+/-- how a Schnorr signature element names its hash type -/
+theorem schnorr_sig_hashtype (sig : Bytes) :
+    (sig.length = 0 → schnorrSigKind sig = .skip) ∧
+    (sig.length = 64 → schnorrSigKind sig = .sig 0 sig) ∧
+    (sig.length = 65 → ∃ b, sig.getLast? = some b ∧ schnorrSigKind sig = .sig b.toNat sig.dropLast) ∧
+    (sig.length ≠ 0 → sig.length ≠ 64 → sig.length ≠ 65 → schnorrSigKind sig = .bad) := by
+  refine ⟨fun h => by simp [schnorrSigKind, h], fun h => by simp [schnorrSigKind, h, Gen.sighashDefault], ?_, ?_⟩
+  · intro h
+    have hne : sig ≠ [] := by intro e; rw [e] at h; simp at h
+    obtain ⟨b, hb⟩ : ∃ b, sig.getLast? = some b := by
+      cases hl : sig.getLast? with
+      | none => exact absurd (List.getLast?_eq_none_iff.mp hl) hne
+      | some b => exact ⟨b, rfl⟩
+    exact ⟨b, hb, by simp [schnorrSigKind, h, hb]⟩
+  · intro h0 h1 h2; simp [schnorrSigKind, h0, h1, h2]
+
 end Buidl.Props.C05
